@@ -707,6 +707,9 @@ Qed.
 Lemma ends_after_open_polling me E call rest : ends (G me true FT E) (after_open_polling cfg me call rest).
 Proof.
   unfold after_open_polling. eapply ht_bind; [apply gk_receive_all|]. intros ?. apply ht_getst_bind. intros s0.
+  assert (DONE : ht (fun s acc => G me true FT E s acc /\ s = s0) (conn_ok me call) (fun _ s acc => Inv s acc)).
+  { eapply ht_conseq; [apply (ends_conn_done me true FT E) | intros s acc [g _]; exact g | auto]. }
+  destruct (state s0); try exact DONE.
   destruct (upgrades_ws s0 && existsb _ (transports s0)).
   - eapply ht_conseq; [apply (ht_ws_connect me true (fun _ sd => sd = sid_set s0) E) | intros s acc [g ->]; eapply G_refine; [exact g | reflexivity] |].
     intros ? s acc (M & L & NO & SD & (c & t & Ee)). cbn in SD. destruct M as (P & C & T).
